@@ -192,6 +192,11 @@ def skipOne {V} (dag : Bool) (cm : Chans V) (k from_ : Key) : Chans V × Bool :=
     let (c', b) := c.reportSkip dag [from_]
     (modChan cm k (fun _ => c'), b)
 
+/-- report to channel `s` that `from_` skipped it; collect `s` if it thereby became skipped -/
+def skipStep {V} (dag : Bool) (from_ : Key) (acc : Chans V × List Key) (s : Key) : Chans V × List Key :=
+  let res := skipOne dag acc.1 s from_
+  (res.1, if res.2 then acc.2 ++ [s] else acc.2)
+
 /-- `reportBranch`'s work list: propagate skips to successors. A skipped key without a
     successors entry (only END) is the error "unknown node". `fuel` bounds the number of
     pops (each node is appended at most once per time it turns skipped). -/
@@ -202,17 +207,13 @@ def propagateSkips {V} (r : Runner V) : Nat → Chans V → List Key → Except 
     match r.node? k with
     | none => .error { cls := .endSkipped }
     | some n =>
-      let (cm', newly) := n.successors.foldl (fun (acc : Chans V × List Key) s =>
-        let (cm1, b) := skipOne r.dag acc.1 s k
-        (cm1, if b then acc.2 ++ [s] else acc.2)) (cm, [])
-      propagateSkips r fuel cm' (rest ++ newly)
+      let res := n.successors.foldl (skipStep r.dag k) (cm, [])
+      propagateSkips r fuel res.1 (rest ++ res.2)
 
 def reportBranch {V} (r : Runner V) (cm : Chans V) (from_ : Key) (skippedNodes : List Key) :
     Except Err (Chans V) :=
-  let (cm1, nKeys) := skippedNodes.foldl (fun (acc : Chans V × List Key) s =>
-    let (cm', b) := skipOne r.dag acc.1 s from_
-    (cm', if b then acc.2 ++ [s] else acc.2)) (cm, [])
-  propagateSkips r ((r.nodes.length + 2) * (r.nodes.length + 2)) cm1 nKeys
+  let res := skippedNodes.foldl (skipStep r.dag from_) (cm, [])
+  propagateSkips r ((r.nodes.length + 2) * (r.nodes.length + 2)) res.1 res.2
 
 /-- `updateValues`: per target keep only declared data predecessors, then reportValues. -/
 def updateValues {V} (r : Runner V) (cm : Chans V) (writes : List (Key × List (Key × V))) : Chans V :=
